@@ -57,9 +57,10 @@ def build(defn, k):
             d["extra_arg"] = {"type": "stringlist", "required": False}
             slots.append({t: (None, "sl", None)})
         elif kind == "values":
-            d["extra_arg"] = {"type": "string", "values": ['"v1"', '"v2"'], "required": False}
-            slots.append({t: (None, "s", ('"v1"', '"v2"'))})
-            param_syms += ['"v1"', '"zz"']
+            # a restricted value set is a set of strings: letter case is part of the value ("High" is allowed, "high" is not)
+            d["extra_arg"] = {"type": "string", "values": ['"v1"', '"High"'], "required": False}
+            slots.append({t: (None, "s", ('"v1"', '"High"'))})
+            param_syms += ['"v1"', '"zz"', '"High"', '"high"']
         elif kind == "two":
             t2 = ":u%d" % i
             d["values"] = [t, t2]
